@@ -272,7 +272,8 @@ struct ProbeReader {
   long calls_after_failure = 0;
   std::vector<int64_t> refs;               // references resolved, in order
   // reference -> handle value (default identity); resolve_fail_ref: reference that fails with resolve_error
-  int64_t resolve_fail_ref = INT64_MIN;
+  int64_t resolve_fail_ref = 0;
+  bool resolve_fail_enabled = false;
   int resolve_error = (int)nop::ErrorStatus::InvalidHandleReference;
   int64_t resolve_offset = 0;
   ProbeReader(const uint8_t* d, size_t len) : p(d), n(len) {}
@@ -316,7 +317,7 @@ struct ProbeReader {
     log.push_back({'G', (uint64_t)ref, 0});
     if (hit()) return (nop::ErrorStatus)fail_with;
     refs.push_back(ref);
-    if (ref == resolve_fail_ref) return (nop::ErrorStatus)resolve_error;
+    if (resolve_fail_enabled && ref == resolve_fail_ref) return (nop::ErrorStatus)resolve_error;
     if (ref < 0) return HandleType{};
     return HandleType{(typename HandleType::Type)(ref + resolve_offset)};
   }
